@@ -449,6 +449,20 @@ func c16Custom(md metadata.MD) string {
 	return strings.Join(out, ";")
 }
 
+// c16Named renders the values md holds for the keys the caller sent (whatever their names look like; the routing key
+// dsthost is fabio's own).
+func c16Named(md, sent metadata.MD) string {
+	var out []string
+	for k := range sent {
+		if k == "dsthost" {
+			continue
+		}
+		out = append(out, k+"="+strings.Join(md[k], "|"))
+	}
+	sort.Strings(out)
+	return strings.Join(out, ";")
+}
+
 func c16Bytes(ms [][]byte) string {
 	var out []string
 	for _, m := range ms {
@@ -471,7 +485,7 @@ func c16Payload(n int, seed byte) []byte {
 
 func TestVerifC16Calls(t *testing.T) {
 	L := ev.Begin("C16", "c16-calls", "exploration",
-		"real stack: grpc.Server with fabio's options (main.newGrpcProxy: codec, transparent handler with GetGRPCDirector, stream interceptor) in front of two instrumented grpc_testing.TestService backends on loopback. call kind {unary, client-stream, server-stream, bidi} x request message sequences of <=3 payloads from {empty, 1B, 70kB} x reply sequences likewise x metadata {none, custom pair, binary -bin key, dsthost matching / not matching / twice} x backend outcome {OK, NotFound 'x', Internal, custom code 42, ResourceExhausted with format verbs, Unavailable} x with/without headers and trailers x every fourth call from a caller that gzip-compresses its messages (per-connection compressor, nothing registered process-wide); oracle: identity on messages, custom metadata, trailers, status code and message, headers when >=1 message was sent; no matching route -> NotFound and no backend contacted. non-trivial = every call")
+		"real stack: grpc.Server with fabio's options (main.newGrpcProxy: codec, transparent handler with GetGRPCDirector, stream interceptor) in front of two instrumented grpc_testing.TestService backends on loopback. call kind {unary, client-stream, server-stream, bidi} x request message sequences of <=3 payloads from {empty, 1B, 70kB} x reply sequences likewise x metadata {none, custom pair, binary -bin key, dsthost matching / not matching / twice, names without x- incl. non-reserved grpc-* keys} x backend outcome {OK, NotFound 'x', Internal, custom code 42, ResourceExhausted with format verbs, Unavailable} x with/without headers and trailers x every fourth call from a caller that gzip-compresses its messages (per-connection compressor, nothing registered process-wide); oracle: identity on messages, custom metadata, trailers, status code and message, headers when >=1 message was sent; no matching route -> NotFound and no backend contacted. non-trivial = every call")
 	r := newC16Rig()
 	host := "grpc.example"
 	table := fmt.Sprintf("route add svcA /grpc.testing.TestService grpc://%s opts \"proto=grpc\"\nroute add svcB %s/grpc.testing.TestService grpc://%s opts \"proto=grpc\"\n", r.a.addr, host, r.b.addr)
@@ -497,6 +511,8 @@ func TestVerifC16Calls(t *testing.T) {
 		{"dsthost-match", metadata.Pairs("dsthost", host, "x-k", "v"), "B"},
 		{"dsthost-nomatch", metadata.Pairs("dsthost", "nomatch.example"), "A"},
 		{"dsthost-twice", metadata.Pairs("dsthost", host, "dsthost", host), "A"},
+		// application metadata whose names do not start with x-: grpc- is no reserved prefix (only a handful of names are)
+		{"named", metadata.Pairs("authorization", "bearer t0k3n", "trace-id", "abc", "grpc-trace-bin", string([]byte{0, 9, 255}), "grpc-previous-rpc-attempts", "2", "grpc-tags-bin", string([]byte{1, 2})), "A"},
 	}
 	outcomes := []struct {
 		code codes.Code
@@ -573,8 +589,8 @@ func TestVerifC16Calls(t *testing.T) {
 								d["backend_received"] = c16Bytes(calls[0].msgs)
 								L.Violation("request-messages-changed/"+k, d)
 							}
-							if c16Custom(calls[0].md) != c16Custom(m.md) {
-								d["backend_metadata"], d["sent_metadata"] = c16Custom(calls[0].md), c16Custom(m.md)
+							if c16Custom(calls[0].md) != c16Custom(m.md) || c16Named(calls[0].md, m.md) != c16Named(m.md, m.md) {
+								d["backend_metadata"], d["sent_metadata"] = c16Custom(calls[0].md)+" "+c16Named(calls[0].md, m.md), c16Custom(m.md)+" "+c16Named(m.md, m.md)
 								L.Violation("custom-metadata-changed/"+m.name, d)
 							}
 							if res.code != o.code || res.msg != o.msg {
